@@ -386,6 +386,8 @@ def _scalar(e, kind):
 
 
 def _scalar_term(v):
+    if z3.is_expr(v) and z3.is_bool(v):
+        return v, 'b'
     if isinstance(v, SymBool):
         return v.e, 'b'
     if isinstance(v, bool):
@@ -835,7 +837,10 @@ def _boolop(f):
         if isinstance(y, (_NoMask, _np.bool_)):
             y = bool(y)
         if not isinstance(x, ndarray) and not isinstance(y, ndarray):
-            return f(z3.BoolVal(bool(x)), z3.BoolVal(bool(y)))
+            tx = x.e if isinstance(x, SymBool) else z3.BoolVal(bool(x))
+            ty = y.e if isinstance(y, SymBool) else z3.BoolVal(bool(y))
+            r = _simp(f(tx, ty))
+            return True if z3.is_true(r) else (False if z3.is_false(r) else SymBool(r))
         if not isinstance(x, ndarray):
             x, y = y, x
         xd = x.data if isinstance(x, MaskedArray) else x
